@@ -33,9 +33,16 @@ theorem params_of_targets :
   decide
 
 /-- Tie to the source: `process_definition` / `assign_api_bindings` still have, statement by statement,
-    the shape that `Model.Slots.step` / `assign` mirror (14 regex facts over the current source). -/
+    the shape that `Model.Slots.step` / `assign` mirror (16 regex facts over the current source; since fix 774c0b4
+    they include: only a type with a register class is bound, that class is the reported slot type, and the body of
+    `process_definition` contains no `panic!`). -/
 theorem alloc_shape_as_modelled :
-    allocShape = ⟨true, true, true, true, true, true, true, true, true, true, true, true, true, true⟩ := by decide
+    allocShape = ⟨true, true, true, true, true, true, true, true, true, true, true, true, true, true, true, true⟩ := by decide
+
+/-- Tie to the source: `get_register_type` gives a register class exactly to the kinds the property calls
+    resources (`Spec.resource`, written by hand); the others return `None` and are therefore never bound. -/
+theorem register_class_iff_resource (k : ObjKind) : (registerType k).isSome = resource k :=
+  registerType_isSome_spec k
 
 /-- Index slots: in every group the index-bound declarations receive, in declaration order,
     consecutive ranges of exactly the required length starting at zero — no gap, no overlap —
@@ -125,11 +132,14 @@ theorem run_agrees {p : Params} (hp : ParamsOk p) {dflt : Nat} :
                   split
                   · rename_i h1; simp [h1] at hz
                   · split
-                    · rfl
                     · rename_i h1 h2; simp [h1, h2] at hz
+                    · split
+                      · rfl
+                      · rename_i h1 h2 h3; simp [h1, h2, h3] at hz
           · cases hob
 
-/-- Completeness: exactly the bindable declarations are bound (cbuffers and object-typed globals,
+/-- Completeness: exactly the bindable declarations are bound (cbuffers and globals of a resource kind
+    — `Spec.resource`; since fix 774c0b4 a global of a non-resource object kind such as `RayDesc` is not —
     minus static samplers where the target implements them in source); non-resources take nothing;
     each lands in its explicit group or else the default group; buffer addresses go inline
     exactly when the target supports them. -/
@@ -175,19 +185,18 @@ theorem inline_buffers_correct {p : Params} (hp : ParamsOk p) {dflt : Nat} {ds :
     · apply sortBufs_sorted
       simpa [List.map_map, Function.comp_def] using hk.1
 
-/-- The allocator cannot panic on kinds that have a register class (all kinds a global can be
-    declared with); for the others `get_register_type` panics and the model says so. -/
-theorem assign_ok_of_root_kinds {p : Params} {dflt : Nat} {ds : List Decl}
-    (hk : ∀ s ss k l, Decl.global s ss (some k) l ∈ ds → (registerType k).isSome) :
+/-- The allocator never panics: for every parameter set, default group and declaration sequence — including globals
+    of the object kinds without a register class (`RayDesc`, `RayQuery`, `TriangleStream`, the mips views), on which
+    `get_register_type` used to panic before fix 774c0b4 — `assign` returns a result.  (Was
+    `assign_ok_of_root_kinds`, which had to assume every global's kind has a register class.) -/
+theorem assign_never_panics (p : Params) (dflt : Nat) (ds : List Decl) :
     ∃ res, assign p dflt ds = .ok res := by
-  have key : ∀ (ds : List Decl) (st : State),
-      (∀ s ss k l, Decl.global s ss (some k) l ∈ ds → (registerType k).isSome) →
-      ∃ r, run p dflt st ds = .ok r := by
+  have key : ∀ (ds : List Decl) (st : State), ∃ r, run p dflt st ds = .ok r := by
     intro ds
     induction ds with
-    | nil => intro st _; exact ⟨_, rfl⟩
+    | nil => intro st; exact ⟨_, rfl⟩
     | cons d ds ih =>
-      intro st hk
+      intro st
       have hstep : ∃ r, step p dflt st d = .ok r := by
         cases d with
         | other => exact ⟨_, rfl⟩
@@ -196,33 +205,41 @@ theorem assign_ok_of_root_kinds {p : Params} {dflt : Nat} {ds : List Decl}
           cases k with
           | none => unfold step; simp only []; split <;> exact ⟨_, rfl⟩
           | some k =>
-            have := hk s ss k l (by simp)
-            obtain ⟨r, hr⟩ := Option.isSome_iff_exists.1 this
-            unfold step; simp only [hr]
+            unfold step; simp only []
             split
             · exact ⟨_, rfl⟩
             · split
               · exact ⟨_, rfl⟩
               · split <;> exact ⟨_, rfl⟩
       obtain ⟨⟨st1, ob⟩, h1⟩ := hstep
-      obtain ⟨⟨st2, bs⟩, h2⟩ := ih st1 (fun s ss k l hm => hk s ss k l (by simp [hm]))
+      obtain ⟨⟨st2, bs⟩, h2⟩ := ih st1
       exact ⟨(st2, ob :: bs), by simp [run, h1, h2]⟩
-  obtain ⟨⟨st, bs⟩, hr⟩ := key ds State.init hk
+  obtain ⟨⟨st, bs⟩, hr⟩ := key ds State.init
   exact ⟨{ bindings := bs, inlineBufs := inlineBuffers st }, by simp [assign, hr]⟩
+
+/-- A global of a non-resource object kind takes nothing and moves nothing: from every state the allocator step
+    returns the unchanged counters and no binding, whatever its group, array length and the parameter set. -/
+theorem non_resource_global_is_inert {p : Params} {dflt : Nat} {st : State} {s : Option Nat} {ss : Bool}
+    {k : ObjKind} {l : Option Nat} (hk : resource k = false) :
+    step p dflt st (.global s ss (some k) l) = .ok (st, none) := by
+  have hreg := registerType_none_iff.2 hk
+  unfold step; simp only [hreg]
+  split <;> rfl
 
 /-! Non-vacuity: a concrete mixed sequence meets every hypothesis, on two configurations. -/
 def exampleDecls : List Decl :=
   [ .cbuffer none, .global (some 1) false (some .Texture2D) (some 3), .other,
     .global none false (some .RWStructuredBuffer) none, .global none true (some .SamplerState) none,
     .global none false (some .BufferAddress) none, .global none false none none,
-    .global (some 1) false (some .RWBufferAddress) none, .global none false (some .ByteAddressBuffer) (some 2) ]
+    .global (some 1) false (some .RWBufferAddress) none, .global none false (some .RayDesc) none,
+    .global none false (some .ByteAddressBuffer) (some 2) ]
 
 example : ParamsOk (paramsFor .HlslForVulkan true) ∧ ParamsOk (paramsFor .Msl false) :=
   ⟨paramsFor_ok _ _, paramsFor_ok _ _⟩
 
 example : (assign (paramsFor .Msl false) 0 exampleDecls).toOption.map (·.bindings.map (·.map setLoc)) =
     some [some (0, .index 0), some (1, .index 0), none, some (0, .index 1), none, some (0, .index 3),
-          none, some (1, .index 3), some (0, .index 5)] := by decide
+          none, some (1, .index 3), none, some (0, .index 5)] := by decide
 
 example : (assign (paramsFor .HlslForVulkan true) 0 exampleDecls).toOption.map (·.inlineBufs) =
     some [⟨0, 5, 8⟩, ⟨1, 3, 8⟩] := by decide
